@@ -1,6 +1,8 @@
 package props
 
 import (
+	"go/ast"
+	"go/constant"
 	"go/token"
 	"go/types"
 	"strings"
@@ -156,4 +158,39 @@ func c14Generator(c *core.Ctx) {
 		c.Result(ok, "C14.e", "CONST", "Visit:random-literal-from-generator", c.P.Pos(visit.Pos()),
 			"the literal replacing RANDOM() is the decimal rendering of one generator call", "the literal replacing RANDOM() is no longer the decimal rendering of one call of Rewriter.randFn", nil)
 	}
+}
+
+// globalRegexConst returns the constant pattern of a package-level variable
+// initialised by regexp.MustCompile(<constant expression>), or "".
+func globalRegexConst(c *core.Ctx, pkgRel, name string) string {
+	pk := c.P.Pkg(pkgRel)
+	if pk == nil {
+		return ""
+	}
+	out := ""
+	for _, f := range pk.Syntax {
+		ast.Inspect(f, func(n ast.Node) bool {
+			vs, ok := n.(*ast.ValueSpec)
+			if !ok {
+				return true
+			}
+			for i, nm := range vs.Names {
+				if nm.Name != name || i >= len(vs.Values) {
+					continue
+				}
+				call, ok := vs.Values[i].(*ast.CallExpr)
+				if !ok || len(call.Args) != 1 {
+					continue
+				}
+				if sel, ok := call.Fun.(*ast.SelectorExpr); !ok || sel.Sel.Name != "MustCompile" {
+					continue
+				}
+				if tv, ok := pk.TypesInfo.Types[call.Args[0]]; ok && tv.Value != nil && tv.Value.Kind() == constant.String {
+					out = constant.StringVal(tv.Value)
+				}
+			}
+			return true
+		})
+	}
+	return out
 }
